@@ -90,7 +90,8 @@ class Replay:
         st, rk = a["status"], r["rk"]
         if rk == "directory" and st == 200 and isinstance(body, dict) and "newAccount" in body:
             self.dir = body
-            self.base = body["newAccount"][:-len("/new-account")]
+            # (`url_decor`: a CA that appends something to every URL it hands out)
+            self.base = body["newAccount"][:-len("/new-account" + (self.sc.get("url_decor") or ""))]
         elif rk == "newAccount" and st in (200, 201) and a.get("location") and (r.get("hdr") or {}).get("jwk"):
             self.account_url = a["location"]
             self.record[a["location"]] = {"jwk": r["hdr"]["jwk"], "alg": r["hdr"].get("alg", "")}
@@ -114,7 +115,7 @@ class Replay:
         if self.dir is None:
             return None, "no directory served yet"
         hdr = r.get("hdr") or {}
-        dest = self.base + r["path"]
+        dest = self.base + r["path"] + (self.sc.get("url_decor") or "")
         rk = r["rk"]
         kind, index = KIND.get(rk), 0
         if rk == "authz":
@@ -145,7 +146,7 @@ class Replay:
             meta["payload_known"] = self.n_new_account == 1 or len(self.sc["steps"]) == 1
             op["contacts"] = ["mailto:" + m for m in (step.get("contacts") or ["a@example.org"])]
             if step.get("eab"):
-                op["eab"] = {"identifier": "kid-1", "alg": step["eab"]}
+                op["eab"] = {"identifier": step.get("eab_kid", "kid-1"), "alg": step["eab"] if step["eab"] != "default" else "HS256"}
                 try:
                     op["sigs"]["mac"] = json.loads(r.get("payload") or "{}")["externalAccountBinding"]["signature"]
                 except Exception:
